@@ -21,6 +21,14 @@ def fmtList (l : List Nat) : String :=
 def optInt (s : String) : Option (Option Int) :=
   if s == "-" then some none else (s.toInt?).map some
 
+/-- `segments` option of `cell_to_boundary`: omitted (`-`), `None`, `'auto'` and "no options argument" (`x`) all mean the automatic rule -/
+def optSeg (s : String) : Option (Option Int) :=
+  if s == "-" || s == "none" || s == "auto" || s == "x" then some none else (s.toInt?).map some
+
+/-- `closed_ring` option: omitted (`-`) or no options argument (`x`) means the default True -/
+def optClosed (s : String) : Option Bool :=
+  if s == "-" || s == "x" || s == "1" then some true else if s == "0" then some false else none
+
 def nats (l : List String) : Option (List Nat) := l.mapM String.toNat?
 
 def fromHexBytes (s : String) : Option String :=
@@ -131,8 +139,8 @@ def runOp (toks : List String) : String :=
     | some n => ofPyM (fun (p : Float × Float) => s!"ok {p.1.toBits} {p.2.toBits}") (CellGeo.cellToLonLat n)
     | none => "bad-op"
   | ["c2b", n, closed, seg] =>
-    match n.toNat?, closed.toNat?, optInt seg with
-    | some n, some c, some sg => ofPyM fmtV2s (CellGeo.cellToBoundary n (c == 1) sg)
+    match n.toNat?, optClosed closed, optSeg seg with
+    | some n, some c, some sg => ofPyM fmtV2s (CellGeo.cellToBoundary n c sg)
     | _, _, _ => "bad-op"
   | ["pent", h, q, s, o] =>
     match h.toNat?, q.toNat?, s.toNat? with
